@@ -8,6 +8,9 @@ import FeatModel.Lemmas.C10Sampler
 import FeatModel.Lemmas.C10Boundary
 import FeatModel.Lemmas.C10Volume
 import FeatModel.Lemmas.C10Keys
+import FeatModel.Lemmas.C10Lift2Dg
+import FeatModel.Lemmas.C10BoundaryPart
+import FeatModel.Lemmas.C10Facets3D
 import FeatModel.Lemmas.C10CoverData
 import FeatModel.Lemmas.C10CoverH3_00
 import FeatModel.Lemmas.C10CoverH3_01
@@ -44,10 +47,12 @@ All theorems are about `FeatModel.Refine.refine` / `fineIdx` / `simpleTargets`, 
 regenerated from the FEAT sources on every run.  Helper lemmas are in `Lemmas/C10*.lean`.
 
 Full statement and what is proved:
-* `C10.FullStatement` (global lift of conformity) is stated but NOT proved; proved parts of it:
-  `C10.shape_preserved_partial` (sizes + index ranges, all mesh sizes), the local lemmas (one cell, every orientation
-  in 2-D; a covering family in 3-D), `C10.counts_formula_*`, `C10.euler_invariant`.
-* mesh parts: `C10.part_follows_parent` (simple target refiner = parts without own topology, all mesh sizes).
+* `C10.FullStatement` (global lift of conformity for dim 1..3): PROVED for `dim = 2` (`C10.global_lift_2d`, any mesh
+  size, triangles and quadrilaterals, + histories); NOT proved for `dim = 3` (there: `C10.shape_preserved_partial`
+  for all meshes, the local lemmas over the Latin-square and the pairwise covering orientation families) and not
+  stated separately for `dim = 1`.
+* counts, Euler characteristic, boundary = one-cell facets (+ preservation in 2-D), mesh-part child mapping, local
+  volume/orientation identities: see the sections below.
 -/
 open FeatModel.Refine FeatModel.Gen.Refine
 
@@ -95,7 +100,7 @@ theorem C10.euler_invariant (M : Mesh) (hd1 : 1 ≤ M.dim) (hd3 : M.dim ≤ 3) (
 
 /-- PARTIAL global lift: of the clauses of `Mesh.consistent`, the one saying that every index set `<c,f>` has
     `nums[c]` tuples of `faceCount` entries which are all valid indices `< nums[f]` is preserved by refinement for
-    every mesh.  Missing for `C10.FullStatement`: the global lift of `facesOk`, `distinctOk`, `facetsOk`, `coveredOk`
+    every mesh.  Missing for `C10.FullStatement` in 3-D: the global lift of `facesOk`, `distinctOk`, `facetsOk`, `coveredOk`
     (proved only locally, see below). -/
 theorem C10.shape_preserved_partial (M : Mesh) (hd : M.dim ≤ 3) (hM : M.shapeOk = true) :
     (refine M).shapeOk = true :=
@@ -109,35 +114,24 @@ theorem C10.tables_structurally_wellformed (kind : Kind) :
 
 /-! ## conformity: GLOBAL lift for 2-D meshes of any size (triangles and quadrilaterals) -/
 
-/-- PARTIAL global lift, 2-D: for every conforming triangle or quadrilateral mesh `M` of any size, the refined mesh
-    satisfies every clause of `Mesh.consistent` except the pairwise one: sizes and index ranges (`shapeOk`), "every
-    listed edge really is the corresponding local edge of the cell" (`facesOk`), no repeated vertex inside an entity
-    (`nodupOk`, first half of `distinctOk`), "every interior facet has exactly two and every boundary facet one
-    adjacent cell" (`facetsOk`), and no orphan edges (`coveredOk`).  Derived from a symbolic check of the generated
-    2-D tables (`decide`) plus the semantic lemma that the child `sim.map(e,b)` of an edge is the one containing the
-    cell's local vertex `FIM[e][b]`.  MISSING for `C10.FullStatement` in 2-D: second half of `distinctOk` (two
-    different fine entities of one dimension never have the same vertex set). -/
-theorem C10.global_lift_2d_partial (M : Mesh) (hd : M.dim = 2) (h : M.consistent = true) :
-    (refine M).nums.length = 3 ∧ (refine M).shapeOk = true ∧ (refine M).facesOk = true ∧ (refine M).nodupOk ∧
-    (refine M).facetsOk = true ∧ (refine M).coveredOk = true := by
-  have := inv2_refine M (inv2_of_consistent M hd h)
-  exact ⟨this.nums3, this.shape, this.faces, this.nodup, this.facets, this.covered⟩
+/-- **GLOBAL LIFT, 2-D (complete)**: `C10.FullStatement` restricted to `dim = 2`.  Refining ANY conforming triangle or
+    quadrilateral mesh (any size, any cell orientation, any numbering/orientation of the edges) yields a conforming
+    mesh: all clauses of `Mesh.consistent` — index ranges and sizes, every listed edge of a refined cell really is
+    the corresponding local edge, no two entities with the same vertex set, every interior edge has exactly two and
+    every boundary edge exactly one adjacent cell, no orphan edges.  Proof: symbolic `decide` checks of the generated
+    2-D tables + the semantic lemma about `sim.map` (`sim_child`) + counting over the table permutation +
+    "rows are determined by their vertex sets" (`rows_inj_all`). -/
+theorem C10.global_lift_2d (M : Mesh) (hd : M.dim = 2) (h : M.consistent = true) : (refine M).consistent = true :=
+  consistent_refine2 M hd h
 
-/-- the lifted invariant `Inv2` (= `consistent` without pairwise distinctness) is preserved by every refinement
-    step, hence by whole refinement histories of any depth -/
-theorem C10.global_lift_2d_histories_partial (M : Mesh) (hd : M.dim = 2) (h : M.consistent = true) (n : Nat) :
-    Inv2 (Nat.iterate refine n M) := by
+/-- histories: conformity is preserved by any number of refinement steps (2-D) -/
+theorem C10.global_lift_2d_histories (M : Mesh) (hd : M.dim = 2) (h : M.consistent = true) (n : Nat) :
+    (Nat.iterate refine n M).consistent = true ∧ (Nat.iterate refine n M).dim = 2 := by
   induction n generalizing M with
-  | zero => exact inv2_of_consistent M hd h
-  | succ n ih =>
-    have key : ∀ (k : Nat) (N : Mesh), Inv2 N → Inv2 (Nat.iterate refine k N) := by
-      intro k
-      induction k with
-      | zero => intro N hN; exact hN
-      | succ k ihk => intro N hN; exact ihk (refine N) (inv2_refine N hN)
-    exact key (n + 1) M (inv2_of_consistent M hd h)
+  | zero => exact ⟨h, hd⟩
+  | succ n ih => exact ih (refine M) hd (consistent_refine2 M hd h)
 
-/-- groundwork for the missing clause: entities (entries `< base`) with equal `setKey` have the same vertex set, so
+/-- `setKey` names vertex sets faithfully (used by the lift): entities (entries `< base`) with equal `setKey` have the same vertex set, so
     `distinctOk` may be established by showing that the vertex sets differ -/
 theorem C10.setKey_identifies_vertex_sets (base : Nat) (x y : List Nat) (hx : ∀ v ∈ x, v < base)
     (hy : ∀ v ∈ y, v < base) (h : setKey base x = setKey base y) : sameSet x y = true :=
@@ -163,6 +157,15 @@ theorem C10.boundary_preserved_2d (M : Mesh) (hd : M.dim = 2) (hs : M.shapeOk = 
     x ∈ (boundary (refine M)).getD 1 [] ↔ x < 2 * M.num 1 ∧ x / 2 ∈ (boundary M).getD 1 [] :=
   boundary_refine2 M ⟨hd, hs⟩ x
 
+/-- **2-D, any mesh size: the boundary part computed on the refined mesh ("facets with exactly one adjacent cell" and
+    their vertices) is, as a set in every dimension, the refinement of the boundary part computed on the coarse
+    mesh** by the mesh-part refiner (`simpleTargets` = `SimpleTargetRefineWrapper`): children of the boundary facets;
+    coarse boundary vertices and midpoints of the boundary facets -/
+theorem C10.refined_boundary_is_refined_boundary_part (M : Mesh) (hd : M.dim = 2) (hs : M.shapeOk = true) (x : Nat) :
+    (x ∈ (boundary (refine M)).getD 1 [] ↔ x ∈ simpleTargets M (boundaryPart M) 1) ∧
+    (x ∈ (boundary (refine M)).getD 0 [] ↔ x ∈ simpleTargets M (boundaryPart M) 0) :=
+  ⟨boundary_refine_part1 M ⟨hd, hs⟩ x, boundary_refine_part0 M ⟨hd, hs⟩ x⟩
+
 /-- 2-D adjacency counts under refinement: a child of a coarse edge has as many adjacent fine cells as its parent has
     coarse cells; an inner edge has exactly two -/
 theorem C10.facet_adjacency_2d (M : Mesh) (hd : M.dim = 2) (hs : M.shapeOk = true) (x : Nat)
@@ -170,6 +173,31 @@ theorem C10.facet_adjacency_2d (M : Mesh) (hd : M.dim = 2) (hs : M.shapeOk = tru
     (x < 2 * M.num 1 → (refine M).facetCount x = M.facetCount (x / 2)) ∧
     (2 * M.num 1 ≤ x → (refine M).facetCount x = 2) :=
   facetCount_refine2_cases M ⟨hd, hs⟩ x hx
+
+/-! ## 3-D, every mesh size: facet adjacency and boundary (shrinks the 3-D gap of `C10.FullStatement`) -/
+
+/-- PARTIAL 3-D global lift, clause `facetsOk`: for every hexahedral or tetrahedral mesh of any size whose index sets
+    are well-shaped, "every interior facet has exactly two and every boundary facet one adjacent cell" is preserved
+    by refinement — for EVERY orientation code the sampler can return (the four children of a face always get four
+    different numbers), so no orientation family is left out for this clause.  Still missing in 3-D: the global
+    lift of `facesOk`, `distinctOk`, `coveredOk` (local only: Latin-square and pairwise covering families). -/
+theorem C10.facets_preserved_3d_partial (M : Mesh) (hd : M.dim = 3) (hs : M.shapeOk = true)
+    (hf : M.facetsOk = true) : (refine M).facetsOk = true :=
+  facetsOk_refine3 M ⟨hd, hs⟩ hf
+
+/-- 3-D adjacency counts: a child of a coarse face has as many adjacent fine cells as its parent has coarse cells, an
+    inner face exactly two -/
+theorem C10.facet_adjacency_3d (M : Mesh) (hd : M.dim = 3) (hs : M.shapeOk = true) (x : Nat)
+    (hx : x < (refine M).num 2) :
+    (x < 4 * M.num 2 → (refine M).facetCount x = M.facetCount (x / 4)) ∧
+    (4 * M.num 2 ≤ x → (refine M).facetCount x = 2) :=
+  facetCount_refine3_cases M ⟨hd, hs⟩ x hx
+
+/-- 3-D, any mesh size: the boundary facets computed on the refined mesh are exactly the four children of every
+    boundary facet computed on the coarse mesh -/
+theorem C10.boundary_preserved_3d (M : Mesh) (hd : M.dim = 3) (hs : M.shapeOk = true) (x : Nat) :
+    x ∈ (boundary (refine M)).getD 2 [] ↔ x < 4 * M.num 2 ∧ x / 4 ∈ (boundary M).getD 2 [] :=
+  boundary_refine3 M ⟨hd, hs⟩ x
 
 /-! ## volume and orientation (local polynomial identities in the vertex coordinates) -/
 
@@ -187,6 +215,24 @@ theorem C10.volume_quadrilateral (x0 y0 x1 y1 x2 y2 x3 y3 : Rat) :
         (quadArea2 (refine (quadMesh x0 y0 x1 y1 x2 y2 x3 y3)))).sum
       = quadArea2 (quadMesh x0 y0 x1 y1 x2 y2 x3 y3) [0, 1, 2, 3] :=
   quad_children_area x0 y0 x1 y1 x2 y2 x3 y3
+
+/-- orientation of the children of a bilinear quadrilateral: a positive Jacobian determinant at the four corners of
+    the parent implies a positive one at the four corners of every child, for arbitrary rational coordinates -/
+theorem C10.orientation_quadrilateral (x0 y0 x1 y1 x2 y2 x3 y3 : Rat)
+    (hpos : ∀ k < 4, 0 < quadJac (quadMesh x0 y0 x1 y1 x2 y2 x3 y3) [0, 1, 2, 3] k) :
+    ∀ t ∈ (refine (quadMesh x0 y0 x1 y1 x2 y2 x3 y3)).idx 2 0, ∀ k < 4,
+      0 < quadJac (refine (quadMesh x0 y0 x1 y1 x2 y2 x3 y3)) t k :=
+  quad_children_orientation x0 y0 x1 y1 x2 y2 x3 y3 hpos
+
+/-- the twelve children of a straight tetrahedron with arbitrary rational vertex coordinates have 1/8 (corner
+    children) resp. 1/16 (children at the centroid) of the parent's signed volume: they tile the parent and keep its
+    orientation.  (Hexahedra: trilinear volume is checked by the oracle only.) -/
+theorem C10.volume_orientation_tetrahedron (a0 a1 a2 b0 b1 b2 c0 c1 c2 d0 d1 d2 : Rat) :
+    ((refine (tetMesh [[a0, a1, a2], [b0, b1, b2], [c0, c1, c2], [d0, d1, d2]])).idx 3 0).map
+        (tetVol6 (refine (tetMesh [[a0, a1, a2], [b0, b1, b2], [c0, c1, c2], [d0, d1, d2]]))) =
+      [1/8, 1/16, 1/8, 1/16, 1/8, 1/16, 1/8, 1/16, 1/16, 1/16, 1/16, 1/16].map
+        (· * tetVol6 (tetMesh [[a0, a1, a2], [b0, b1, b2], [c0, c1, c2], [d0, d1, d2]]) [0, 1, 2, 3]) :=
+  tet_children_volume a0 a1 a2 b0 b1 b2 c0 c1 c2 d0 d1 d2
 
 /-! ## orientation codes (specification of the hand-transcribed `CongruencySampler::compare`, any vertex numbers) -/
 
@@ -263,8 +309,11 @@ theorem C10.local_refinement_tetrahedron_partial :
 /-- PARTIAL 3-D local lemma, hexahedron, PAIRWISE covering family (64 cells, orthogonal array over GF(8)): every pair
     of the cell's 6 faces with all 8×8 joint orientation codes, every face code jointly with either orientation of
     every edge, every pair of edges with all four flip combinations (`C10.covering_family_covers_pairs`) refines to
-    a conforming mesh.  NOT the full product 8⁶·2¹² (infeasible by evaluation; it needs the 3-D analogue of the
-    semantic lemma `sim_child`, see `Lemmas/C10Lift2D.lean`) -/
+    a conforming mesh.  COVERED by `decide +kernel`: every single sub-entity orientation (8 codes per face, 2 per
+    edge) and every joint orientation of any TWO sub-entities of the cell.  NOT covered: joint orientations of three
+    or more sub-entities, i.e. the full product 8⁶·2¹² (2³⁰ cells, infeasible by evaluation; it needs the 3-D
+    analogue of the semantic lemma `sim_child`, see `Lemmas/C10Lift2D.lean`).  For the clause `facetsOk` no family
+    is left out: `C10.facets_preserved_3d_partial` holds for every orientation code and every mesh. -/
 theorem C10.local_refinement_hexahedron_pairs_partial :
     ∀ idx < 64, (refine (cell3c .hypercube idx)).consistent = true := by
   intro idx h
